@@ -29,8 +29,23 @@ fn frame_from_unit(rng: &mut Rng, d: &DriverCfg) -> [u8; 16] {
     full
 }
 
+fn mgmt_frame(rng: &mut Rng, da: u8) -> [u8; 16] {
+    match rng.below(5) {
+            0 => raw_of(make_id(6, 60928, 0xFF, 0x27), &[0u8; 8]),
+            1 => raw_of(make_id(6, 60928, 0xFF, 0x27), &[0xFF, 0xFF, 0xFF, 0xFF, 0xFF, 0xFF, 0xFF, *rng.pick(&[0xFFu8, 0x7F])]),
+            2 => raw_of(make_id(7, 60416, 0xFF, da), &[0x20, 20, 0, 1 + rng.below(4) as u8, 0xFF, 0xDA, 0xFE, 0x00]),
+            3 => raw_of(make_id(7, 60160, *rng.pick(&[0xFFu8, 0x27, da]), *rng.pick(&[0x55u8, 0x27, da])), &[1 + rng.below(4) as u8, 1, 2, 3, 4, 5, 6, 7]),
+            _ => raw_of(make_id(6, 60928, 0xFF, *rng.pick(&[0x27u8, 0x55])), &[rng.byte(), rng.byte(), rng.byte(), rng.byte(), rng.byte(), rng.byte(), rng.byte(), rng.byte()]),
+    }
+}
+
 fn frame_from_unit_full(rng: &mut Rng, d: &DriverCfg) -> [u8; 16] {
     let da = d.da;
+    // network management and transport traffic: another node claiming the daemon's own address (with a NAME that would win or
+    // lose an arbitration), multi-packet announcements from this unit, data packets from this unit / a stranger / the own address
+    if rng.chance(1, 10) {
+        return mgmt_frame(rng, da);
+    }
     // any parameter group any driver inspects, from this unit's address (whether its own driver accepts it is for the
     // model to say)
     if rng.chance(1, 4) {
@@ -326,6 +341,10 @@ pub fn run_c01_auth(out: &mut Out, tier: &str, rng: &mut Rng) {
         if rep % 4 != 0 {
             h.cycle();
         }
+        if rep % 4 == 1 {
+            // deterministic: a contender for the own address (lowest / highest NAME) before the first command
+            h.frame(&raw_of(make_id(6, 60928, 0xFF, 0x27), &[if rep % 8 == 1 { 0u8 } else { 0xFF }; 8]));
+        }
         let len = 4 + rng.below(if thorough { 40 } else { 16 });
         for _ in 0..len {
             match rng.below(8) {
@@ -348,8 +367,15 @@ pub fn run_c01_auth(out: &mut Out, tier: &str, rng: &mut Rng) {
                     out.count("authority history: unit status frame");
                 }
                 5 => {
-                    let raw = raw_of(make_id(6, *rng.pick(&[65288u32, 61444, 45824, 40960]), 0x27, *rng.pick(&[0x99u8, 0x27, 0x4B])), &[rng.byte(), rng.byte(), rng.byte(), rng.byte(), 0, 0, 0, 0]);
+                    let raw = if rng.chance(1, 2) {
+                        raw_of(make_id(6, *rng.pick(&[65288u32, 61444, 45824, 40960]), 0x27, *rng.pick(&[0x99u8, 0x27, 0x4B])), &[rng.byte(), rng.byte(), rng.byte(), rng.byte(), 0, 0, 0, 0])
+                    } else {
+                        // network management / transport traffic (another node claiming the daemon's address with a winning or a
+                        // losing NAME, announcements and data packets): received bus traffic never alters what is re-asserted
+                        mgmt_frame(rng, cfg.drivers[0].da)
+                    };
                     h.frame(&raw);
+                    out.count("authority history: foreign / management frame");
                 }
                 6 => h.engine(&Engine { driver_demand: 0, actual_engine: 0, rpm: *rng.pick(&[0u16, 1000, 1500, 2300]), state: *rng.pick(&[EngineState::Request, EngineState::NoRequest]) }),
                 _ => h.cycle(),
